@@ -174,10 +174,14 @@ type c01Case struct {
 	Tokens    []int  `json:"tokens,omitempty"`
 	Typed     string `json:"typed,omitempty"`
 	Value     string `json:"value"` // informational: the string form
+	// Pad > 0 (sizes part): the token string is embedded in a run of Pad harmless letters, At the
+	// start / middle / end of it (values around the lengths at which buffers and fast paths change)
+	Pad int    `json:"pad,omitempty"`
+	At  string `json:"at,omitempty"`
 }
 
 func (c *c01Case) Key() string {
-	return fmt.Sprintf("%s|%s|%s|%s|%v|%s", c.Host, c.Sink, c.Neigh, c.Construct, c.Tokens, c.Typed)
+	return fmt.Sprintf("%s|%s|%s|%s|%v|%s|%d%s", c.Host, c.Sink, c.Neigh, c.Construct, c.Tokens, c.Typed, c.Pad, c.At)
 }
 
 // hosts whose content model is special for the HTML5 parser (raw text, escapable raw text,
@@ -220,7 +224,22 @@ func (c *c01Case) value() any {
 	if c.Host != "" {
 		return joinTokens(c01HostAlphabet(c.Host), c.Tokens)
 	}
-	return joinTokens(c01Alphabet, c.Tokens)
+	v := joinTokens(c01Alphabet, c.Tokens)
+	if c.Pad > 0 {
+		n := c.Pad - len(v)
+		if n < 0 {
+			n = 0
+		}
+		switch c.At {
+		case "start":
+			return v + strings.Repeat("a", n)
+		case "middle":
+			return strings.Repeat("a", n/2) + v + strings.Repeat("a", n-n/2)
+		default:
+			return strings.Repeat("a", n) + v
+		}
+	}
+	return v
 }
 
 var c01RefCache = map[string]string{}
@@ -366,7 +385,7 @@ func init() {
 	core.Register(&core.Check{
 		ID:    "C01",
 		Level: "exploration",
-		Rule: "all token strings up to the bound over the alphabet " + fmt.Sprintf("%q", c01Alphabet) + " plus 7 non-string values, in every sink (text, v-text, interpolated attr, :attr, v-bind:attr) x static neighbourhood (6) x enclosing construct (" + fmt.Sprint(len(c01Constructs)) + ": 13 single-evaluation constructs (incl. a sink below <pre>) swept with the full alphabet, 12 constructs in which one source node is evaluated repeatedly - slot content used twice / in a loop, cached components, template-rooted components, a second render - swept with the 7 tokens that matter for repeated interpolation); " +
+		Rule: "all token strings up to the bound over the alphabet " + fmt.Sprintf("%q", c01Alphabet) + " plus 7 non-string values, in every sink (text, v-text, interpolated attr, :attr, v-bind:attr) x static neighbourhood (6) x enclosing construct (" + fmt.Sprint(len(c01Constructs)) + ": 13 single-evaluation constructs (incl. a sink below <pre>) swept with the full alphabet, 12 constructs in which one source node is evaluated repeatedly - slot content used twice / in a loop, cached components, template-rooted components, a second render - swept with the 7 tokens that matter for repeated interpolation); plus a sizes part: every token at the start / middle / end of values of 21 lengths around 16 .. 4096 in every sink; " +
 			"oracle: HTML5 re-parse has the same element/attribute-name skeleton as with the value 'zqx', and a canary bound to `secret` never appears. non-trivial = value contains one of < > \" ' & {; distinct = distinct (context, token vector)",
 		Bounds:      map[string]string{"quick": "token strings of length <= 3 in all contexts; text sink inside 15 special host elements (raw-text, RCDATA, noscript in both scripting modes, select, table, svg text, style / script inside svg and math) with the host's end tag added to the alphabet, length <= 3", "thorough": "token strings of length <= 3 in all contexts, length 4 in the N0 neighbourhood of every sink and construct"},
 		Assumptions: []string{"golang.org/x/net/html is a faithful HTML5 parser", "v-html sinks and script/style bodies are exempt and never used as sinks"},
@@ -396,6 +415,21 @@ func init() {
 						emit(&c01Case{Host: h, Sink: "text", Neigh: "N0", Construct: c, Tokens: append([]int(nil), tok...), Value: val})
 					}
 				})
+			}
+			// sizes part
+			for i, tk := range c01Alphabet {
+				if tk == "w" || tk == " " {
+					continue
+				}
+				for _, pad := range []int{15, 16, 17, 31, 32, 33, 63, 64, 65, 127, 128, 129, 255, 256, 257, 1023, 1024, 1025, 4095, 4096, 4097} {
+					for _, at := range []string{"start", "middle", "end"} {
+						for _, s := range c01Sinks {
+							emit(&c01Case{Sink: s, Neigh: "N0", Construct: "top", Tokens: []int{i}, Pad: pad, At: at, Value: tk})
+						}
+						emit(&c01Case{Sink: "text", Neigh: "N0", Construct: "incbound", Tokens: []int{i}, Pad: pad, At: at, Value: tk})
+						emit(&c01Case{Sink: "vtext", Neigh: "N0", Construct: "inpre", Tokens: []int{i}, Pad: pad, At: at, Value: tk})
+					}
+				}
 			}
 			full, n0 := 3, 3
 			if tier == "thorough" {
